@@ -73,8 +73,16 @@ VSuccess(e) ==
      ELSE IF HappinessOfPairs(placed \cup found) < C.happy THEN Same("C06_SuccessMeetsHappiness")
      ELSE V("", St, holes, [kind |-> "success", placed |-> placed])
 
+\* C07, last sentence, at the level of a whole upload: on a fault-free grid without earlier shares (every server answers,
+\* advertises its space truthfully: writable / room for one share / full) a happy layout exists as soon as `happy`
+\* servers can take a share and some server has room for the rest; such an upload must not be declared unhappy
+FaultFree == "faultfree" \in DOMAIN C /\ C.faultfree
+TakesOne(s) == C.modes[s] \in {"writable", "small_known"}
+HappyLayoutExists == /\ Cardinality({s \in Srv : TakesOne(s)}) >= C.happy
+                     /\ \E s \in Srv : C.modes[s] = "writable"
 VFailure(e) ==
-  IF ToSet(e.mro) \cap UnhappyClasses # {} THEN V("", St, holes, [kind |-> "unhappy", placed |-> {}])
+  IF ToSet(e.mro) \cap UnhappyClasses # {} /\ FaultFree /\ HappyLayoutExists THEN Same("C07_UnhappyThoughReachable")
+  ELSE IF ToSet(e.mro) \cap UnhappyClasses # {} THEN V("", St, holes, [kind |-> "unhappy", placed |-> {}])
   ELSE IF e.cls = "AssertionError" /\ e.where = "upload.py:set_shareholders"
     THEN \* known benign death (one share number on two trackers); outside the statement: not judged
          V("", St, holes, [kind |-> "died", placed |-> {}])
